@@ -39,7 +39,7 @@ EXAMPLES_THOROUGH = [
     ("PSwitch/UPG2BitSmart.sys", []), ("PSwitch/UPG2BitTest.sys", []), ("Jongmin/three_node_osc.sys", []),
     ("Jongmin/two_node_SA_osc.sys", []), ("David_CRN/Oscillator.sys", ["15", "15", "15"]),
     ("David_CRN/Roessler.sys", ["5", "6"]), ("Barish/Copy.sys", []), ("Barish/BinaryCounter.sys", []),
-    ("Lulu/clamps/And21.sys", ["15", "15", "15", "15"]), ("Lulu/clamps/Sqrt42.sys", ["15", "15", "15", "15"]),
+    ("Lulu/clamps/And21.sys", ["15", "15", "15", "15"]), ("Lulu/clamps/Or22.sys", ["15", "15", "15", "15"]),
     ("Georg_System/Circuit.sys", []), ("Elisa/self_activator.sys", []),
 ]
 
@@ -143,7 +143,7 @@ def run(st, tier, seed):
                 "documents in the compiler's spelling, and PIL emitted by the real compiler for examples; both layouts; "
                 "non-trivial = satisfiable document with >= 2 strands or a sup-sequence or a structure; distinct by (text, layout)")
     rng = core.rng_for(seed, "c04")
-    n_docs = 300 if tier == "quick" else 4000
+    n_docs = 300 if tier == "quick" else 6000
     reqs, expect = [], []
     with core.scratch("pepper_c04_") as d:
         for i in range(n_docs):
